@@ -209,7 +209,7 @@ func (doc *Document) AddNode(node Node) {
 
 		// A new record (such as a family) can change what is cached by the
 		// other individuals and families.
-		nodeCache = &sync.Map{}
+		resetNodeCache()
 	}
 }
 
@@ -362,7 +362,7 @@ func (doc *Document) DeleteNode(node Node) (didDelete bool) {
 func (doc *Document) rootNodesChanged() {
 	doc.buildPointerCache()
 	doc.families = nil
-	nodeCache = &sync.Map{}
+	resetNodeCache()
 }
 
 func (doc *Document) Warnings() (warnings Warnings) {
